@@ -3,13 +3,20 @@
     Histories are lists of acknowledged write commands with the database of their caller
     ([Spec.SpecDurable.wr]); [wr_ok] only asks what the log reader itself demands (argument <= 512 MiB,
     <= 1 Mi arguments, database index < 2^29) and that the command is not SELECT (never a write command).
-    The restoring process shows the same clock as the writing one: relative expiries and randomised
-    commands are re-evaluated at replay (known finding C02-relative-expiry; SPOP-like commands are excluded from generation).
-    File-system behaviour is the one stated in [Model/Disk.v]. *)
+    In the first group of theorems the history is the list of *logged* commands and the restoring process
+    shows the clock of the writing one.  What is logged for a client's command is its absolute form
+    ([Model/AbsForm.v], [internal.AbsoluteExpiryForm]: a relative expiry becomes the absolute time it
+    denotes at the clock the handler saw); the last group ([C02_logged_form_same_effect],
+    [C02_clean_restart_relative]) is about the client's commands themselves, with a clock that moves
+    between the writes and before the restart.  Randomised commands (SPOP-like) are re-evaluated at replay
+    and are excluded ([entry_det_b]); so is a deadline that falls due between a write and its replay
+    (horizon [T]).  File-system behaviour is the one stated in [Model/Disk.v]. *)
 From stdpp Require Import gmap strings.
 From EV Require Import Base.Str Model.Value Model.Keyspace Model.Reply Model.Prog Model.Dispatch.
 From EV Require Import Model.Resp Model.Disk Model.Aof Spec.SpecDurable Proofs.RespProofs Proofs.AofProofs.
 From EV Require Import Proofs.KeyspaceLemmas.
+From EV Require Import Model.AbsForm Model.Raft Proofs.RaftLemmas Proofs.RaftDet Proofs.RaftProofs.
+From EV Require Import Proofs.AbsFormProofs Proofs.AbsFormReplay.
 Local Open Scope Z_scope.
 
 (** Codec, unbounded sizes. *)
@@ -64,6 +71,33 @@ Theorem C02_redurable now pol h img suf h' : Forall wr_ok h -> Forall wr_ok h' -
     run_writes (dataset_after (init_state now) h j) h'.
 Proof. exact (redurable now pol h img suf h'). Qed.
 
+(** What is logged does, at the clock the handler saw, exactly what the client's command does: same
+    reply, same state — every state, every argument vector. *)
+Theorem C02_logged_form_same_effect s d argv :
+  exec_db s d (absolute_form (st_now s) argv) = exec_db s d argv.
+Proof. exact (absolute_form_same_effect s d argv). Qed.
+
+(** Clean restart for histories with relative expiries and a moving clock: the writer starts at [now0], its
+    clock shows [t] at the write [(t, d, argv)], the log receives [absolute_form t argv]; a process
+    started when the clock shows [now'] restores the dataset the writes built (everything but the clock
+    itself: values, deadlines, volatile index, memory figure) — for every sync policy, provided every
+    logged command passes the decidable check [entry_det_b T] (no randomised command; deadlines at or
+    after [T]) and no clock reading exceeds [T] (no deadline falls due between write and replay). *)
+Theorem C02_clean_restart_relative T pol th now0 now' :
+  Forall wr_ok (logged_form th) ->
+  Forall (fun w : wr => entry_det_b T (ReqCommand (fst w) (snd w)) = true) (logged_form th) ->
+  Forall (fun x : tcmd => fst (fst x) <= T) th -> now0 <= T -> now' <= T ->
+  dataset (restore now' PreEmpty (f_all (a_log (aof_run pol aof_fresh (logged_form th))))) =
+  dataset (run_timed (init_state now0) th).
+Proof. exact (clean_restart_abs T pol th now0 now'). Qed.
+
+(** The check is passed by the absolute form of every command with a relative expiry whose deadline is
+    at or after [T] — and never by EXPIRE / PEXPIRE as given. *)
+Theorem C02_logged_form_replay_stable T now d argv :
+  absolute_form now argv <> argv -> abs_horizon T now argv = true ->
+  entry_det_b T (ReqCommand d (absolute_form now argv)) = true.
+Proof. exact (absolute_form_replay_stable T now d argv). Qed.
+
 Print Assumptions C02_decode_encode_cmd.
 Print Assumptions C02_decode_stream_concat.
 Print Assumptions C02_decode_stream_torn.
@@ -71,6 +105,9 @@ Print Assumptions C02_clean_restart.
 Print Assumptions C02_crash_prefix.
 Print Assumptions C02_always_keeps_acked.
 Print Assumptions C02_redurable.
+Print Assumptions C02_logged_form_same_effect.
+Print Assumptions C02_clean_restart_relative.
+Print Assumptions C02_logged_form_replay_stable.
 
 (** Non-vacuity: a history over three databases, an embedded and two other callers' databases, five
     value types; it satisfies [wr_ok], its log restores to a dataset with all of it. *)
@@ -85,4 +122,35 @@ Qed.
 Example ex_restore :
   show_view (restore 1700000000000 PreEmpty (f_all (a_log (aof_run EverySec aof_fresh ex_h)))) =
   "mem=* db0{73=S{78}@0 7a=z{6d:3/2}@0} db2{6c=l[61,62]@0 6e=i1@0} db12{68=h{66:i1}@0 6b=s7631@0}".
+Proof. vm_compute. reflexivity. Qed.
+
+(** Non-vacuity of the relative-expiry theorems, and the regression witness of the repaired defect: a key
+    set with EX 100 at clock 1 700 000 000 000, a second one given 100 s eight seconds later, restart twenty
+    seconds after that.  The log holds PXAT / PEXPIREAT and restores the deadlines the client asked for; the
+    log as it was written before the repair (the commands as given) re-bases them on the restarting clock. *)
+Definition ex_th : list tcmd :=
+  [(1700000000000, 0, ["SET"; "k"; "v"; "EX"; "100"]); (1700000008000, 3, ["SET"; "j"; "w"]);
+   (1700000008000, 3, ["EXPIRE"; "j"; "100"; "NX"]); (1700000009000, 0, ["GETEX"; "k"; "PX"; "60000"])].
+Example ex_logged_form :
+  logged_form ex_th =
+  [(0, ["SET"; "k"; "v"; "PXAT"; "1700000100000"]); (3, ["SET"; "j"; "w"]);
+   (3, ["PEXPIREAT"; "j"; "1700000108000"; "NX"]); (0, ["GETEX"; "k"; "PXAT"; "1700000069000"])].
+Proof. vm_compute. reflexivity. Qed.
+Example ex_th_hyps :
+  Forall (fun w : wr => entry_det_b 1700000060000 (ReqCommand (fst w) (snd w)) = true) (logged_form ex_th) /\
+  Forall (fun x : tcmd => fst (fst x) <= 1700000060000) ex_th.
+Proof.
+  split.
+  - rewrite ex_logged_form. repeat (constructor; [vm_compute; reflexivity|]). constructor.
+  - unfold ex_th. repeat (constructor; [vm_compute; congruence|]). constructor.
+Qed.
+Example ex_relative_restore :
+  show_view (restore 1700000029000 PreEmpty (f_all (a_log (aof_run Always aof_fresh (logged_form ex_th))))) =
+  show_view (run_timed (init_state 1700000000000) ex_th) /\
+  show_view (run_timed (init_state 1700000000000) ex_th) = "mem=* db0{6b=s76@1700000069000} db3{6a=s77@1700000108000}".
+Proof. vm_compute. split; reflexivity. Qed.
+Example C02_verbatim_log_refuted :
+  show_view (restore 1700000029000 PreEmpty
+               (f_all (a_log (aof_run Always aof_fresh (map (fun '(_, d, c) => (d, c)) ex_th))))) =
+  "mem=* db0{6b=s76@1700000089000} db3{6a=s77@1700000129000}".
 Proof. vm_compute. reflexivity. Qed.
